@@ -30,6 +30,11 @@ def histories(r, n_hist):
         m = rng.choice(HISTORY_METHODS)
         mc = methods.parse_method_toml(m, False)
         inputs = [family_pil(rng) if rng.random() < 0.3 else gen_pil(rng) for _ in range(3)]
+        if rng.random() < 0.35:
+            # one of the inputs has no target peptide at all (a decoy-only search, an entrapment half): every quantity that is
+            # "computed from the target PEPs" takes its empty-list value - in a fresh process and on a re-used object alike
+            j = rng.randrange(3)
+            inputs[j] = [[e, sc, [p if p.startswith("REV__") else "REV__" + p for p in ps]] for e, sc, ps in inputs[j]]
         from fractions import Fraction
         # the caller's own dictionaries: the same OBJECT is handed to every call on that input (a fresh process parses a fresh one)
         objs = [{e: (float(Fraction(sc)), list(ps)) for e, sc, ps in pil} for pil in inputs]
